@@ -23,4 +23,18 @@ TEXT = {
   "note": "JSON round trip effects (nil vs empty) are exercised by the harness, not modelled. Open findings: six unloadable terminal states, two hand-over states." + COMMON_NOTE,
  },
 }
+TEXT.update({
+ "C09": {"technique": "Coq proof on the node model (processMessage) + differential signature-mutation histories on a real node",
+  "level": "Theorem (every node state, clock value, message other than the opening proposal, verification on): if the signature is not the registered sender key's signature over exactly the message data, the message is refused with an EMPTY write trace - every round, the pool, the signature store and the board are untouched. The node model is tied to node_service.go by replaying histories (every state of a ceremony x 10 mutation classes) on a real node and comparing full durable snapshots.",
+  "note": "reinit_dkg and the opening proposal are exempt by the statement. A restore that panics is excluded (C18/C19)." + COMMON_NOTE},
+ "C10": {"technique": "Coq proof on the node model (after the impersonation fix) + differential impersonation / replay histories",
+  "level": "Partial theorem: every accepted FSM-bound message verified under the key registered for its sender and names the participant registered for that sender (holds after fix 8f9441e). The 'round and step' half of the property is refuted on the tree: the signature covers the payload only; cross-round and cross-event replays are accepted (open findings, reproduced by the harness on every run).",
+  "note": "open findings C10-cross-round-replay, C10-cross-event-replay." + COMMON_NOTE},
+ "C15": {"technique": "Coq proof on the node model (executeOperation) + differential result-mutation histories",
+  "level": "Theorem: an accepted result is a result of a pending (visible) operation whose type and payload bytes came back unchanged, and the board receives exactly the result's messages in order, attributed to the node, followed only by the two retiring pool writes. Tied by real-node histories (9 result variants + double submission after every operation-producing prefix).",
+  "note": "'no longer pending afterwards' and the JSON file round trip are checked by the harness only in this round (partial)." + COMMON_NOTE},
+ "C18": {"technique": "Coq proof on the node model (refused message leaves the state store untouched) + hostile-input histories with recover()",
+  "level": "Partial theorem: a refused board message writes nothing to rounds/operations/tombstones/signatures unless the round was in a cancelled signing state (lazy restart). Crash-freedom is decided by the harness: ~80 hostile messages x positions with recover(); any panic or durable change on refusal is a violation.",
+  "note": "airgapped operation files and HTTP bodies are not covered in this round; byte-level fuzzing of decoders not built." + COMMON_NOTE},
+})
 NOT_APPLICABLE = {}
